@@ -136,14 +136,14 @@ theorem boostedRewards_pool_le {c' : BCfg} {userFarm : Nat} {g g' : Weekly.St} {
           obtain ⟨_, rfl, rfl⟩ := h
           simp only [rsum_nil, ite_self, Nat.add_zero]
           exact hcoll
-        · simp only [Option.bind_eq_bind, Option.bind_eq_some_iff, req_eq_some] at h
+        · simp only [Option.bind_eq_some_iff, req_eq_some] at h
           obtain ⟨_, _, h⟩ := h
           split at h
           · simp only [Option.pure_def, Option.some.injEq, Prod.mk.injEq] at h
             obtain ⟨_, rfl, rfl⟩ := h
             simp only [rsum_nil, ite_self, Nat.add_zero]
             exact hcoll
-          · simp only [Option.bind_eq_bind, Option.bind_eq_some_iff, sub?_eq_some, Option.pure_def,
+          · simp only [Option.bind_eq_some_iff, sub?_eq_some, Option.pure_def,
               Option.some.injEq, Prod.mk.injEq] at h
             obtain ⟨rem, ⟨hle, rfl⟩, _, rfl, rfl⟩ := h
             by_cases hk : week = k
